@@ -89,8 +89,8 @@ def judge(chk, c, ok, hash_ok, transport, line, s):
 
 
 def wire_good(kind):
-    return dict(what="resp", mac="ok", hdr="ok", ver="v2", status=0, id="same", hash="same", cons="ok") if kind == "sign" else \
-        dict(what="resp", mac="ok", hdr="ok", ver="v2", status=0, id="same", aggrtime="same", pubtime="same", shape="ok", input="same", rlinks="agree")
+    return dict(what="resp", mac="ok", hdr="ok", ver="v2", status="0", id="same", hash="same", cons="ok", body="full") if kind == "sign" else \
+        dict(what="resp", mac="ok", hdr="ok", ver="v2", status="0", id="same", aggrtime="same", pubtime="same", shape="ok", input="same", rlinks="agree", body="full")
 
 
 def async_case(chk, s, rng, c, n):
